@@ -3,6 +3,8 @@ import vlib, rel
 
 CFGS = [{"partitions": 1}, {"partitions": 3, "batch_size": 2, "_chunk": 2, "threads": 4},
         {"partitions": 8, "threads": 8}, {"partitions": 2, "batch_size": 3, "_chunk": 3},
+        {"partitions": 3, "threads": 4, "_style": {"split_inserts": True, "longtext": True}},
+        {"partitions": 2, "_style": {"split_inserts": True, "longtext": True}, "det": {"fallback": "rand", "seed": 5, "maxk": 0}},
         {"partitions": 4, "batch_size": 2, "_chunk": 2, "det": {"fallback": "rand", "seed": 11, "maxk": 2}}]
 
 
